@@ -26,7 +26,10 @@ var patterns = []string{"literal", "const", "let", "let-reassigned-before", "let
 	"cast-wrap-u8", "cast-wrap-i8", "cast-widen",
 	// the index changes between two iterations of a loop, but not by an assignment to it:
 	// through a mutable reference, or in a callee that was handed one
-	"ref-write-in-loop-after", "refarg-in-loop-after", "ref-write-in-for-after"}
+	"ref-write-in-loop-after", "refarg-in-loop-after", "ref-write-in-for-after",
+	// the index is a parameter (nothing is known about it); a sibling branch that is not executed
+	// assigns it a literal
+	"param-sibling-lit"}
 var accesses = []string{"read", "write", "compound-write", "read-twice", "borrow-read", "field-read", "field-write", "optional-init", "arg", "return"}
 
 type spec struct {
@@ -195,7 +198,7 @@ func build(s spec, sfx string) (*fl.Program, bool) {
 			return []fl.Stmt{&fl.If{Cond: fl.C(cond, i32(0)), Then: []fl.Stmt{&fl.Assign{LHS: fl.V("i"), RHS: i32(other)}},
 				Else: []fl.Stmt{&fl.If{Cond: fl.C(cond, i32(1)), Then: acc, Else: []fl.Stmt{&fl.Assign{LHS: fl.V("i"), RHS: i32(other)}}}}}}
 		}
-	case "param":
+	case "param", "param-sibling-lit":
 	}
 	var acc []fl.Stmt
 	e := fl.Ix(a, idx)
@@ -241,6 +244,12 @@ func build(s spec, sfx string) (*fl.Program, bool) {
 		&fl.Let{Name: "g2", T: fl.I64, Init: fl.L(fl.I64, 2222)}}
 	var body []fl.Stmt
 	switch s.pat {
+	case "param-sibling-lit":
+		inner := append([]fl.Stmt{fl.P(fl.S("before"))}, acc...)
+		fb := append(append([]fl.Stmt{}, decl...), &fl.If{Cond: fl.C(cond, i32(0)), Then: []fl.Stmt{&fl.Assign{LHS: fl.V("i"), RHS: i32(other)}, fl.P(fl.V("i"))}, Else: inner})
+		fb = append(fb, dump...)
+		p.Funcs = append(p.Funcs, &fl.Func{Name: "acc" + sfx, Params: []fl.Param{{"i", fl.I32}}, Body: fb})
+		body = []fl.Stmt{&fl.ExprStmt{X: fl.C("acc"+sfx, k)}}
 	case "param":
 		fb := append(append(append([]fl.Stmt{}, decl...), fl.P(fl.S("before"))), acc...)
 		fb = append(fb, dump...)
